@@ -348,6 +348,8 @@ func (run *checkRun) generate(en *Engine, p *PropSpec) []*Obligation {
 	}
 	for k := range en.missingAnchors {
 		run.externs["lemma anchor missing in the code: "+k] = true
+		// the contract names a call/store that the code no longer contains: it does not attach
+		run.undecided = append(run.undecided, fmt.Sprintf("[%s] the anchor of a cut/lemma clause no longer exists in the code: %s", en.cfgName, k))
 	}
 	for k := range en.inlined {
 		run.inlined[k] = true
